@@ -115,6 +115,10 @@ def step (_ : Unit) (toks : List Val) (impl : String) : Unit × Out :=
       ((), { model := toString m, spec := if asc then some (toString (Spec.SortSpec.lowerBound s v)) else none,
              tags := [tag, if asc then "bsearch.ascending" else "bsearch.unsorted"] })
     | none => ((), { model := "bad-op" })
+  | [.w "bsearchunits", .i n, .i all] =>
+    -- n zero-size elements (all equal, hence ascending); `less` is constantly `all`: the lower bound is n if everything is "less", else 0
+    let m := TypVerif.Model.GoSearch.search n.toNat (fun _ => all == 0)
+    ((), { model := toString m, spec := some (toString (if all != 0 then n else 0)), tags := ["bsearchunits"] })
   | [.w "bsearchfunc", l, .i v] =>
     match l.ints? with
     | some s =>
